@@ -82,12 +82,12 @@ CLAIMED = {
  "C16": dict(
    technique="crash/hang/memory monitoring of isolated worker processes: panic hook + catch_unwind, counting allocator with hard cap, hook step budget, signal/exit-status supervision; bounded-exhaustive dictionary lines, structure-aware hostile programs, mutation fuzzing (thorough: + valgrind memcheck and Miri legs)",
    text="Every case is built alone in a worker process (8 MiB main-thread stack) under a panic hook, a counting allocator capped at 256 MiB live heap, a hook step budget of 5e7 (deterministic hang verdict) and signal supervision: all one-line programs head x operand tuples of length 0-2 over a 50-entry hostile dictionary (complete; length 3 sampled in quick, complete in thorough), ~160 structure-aware hostile programs (unbalanced/deep conditionals and macros, recursive macros/.equ, expression ladders to depth 30000, absurd .org/.byte, 60 KB tokens, self-including files) and byte/token mutations of valid generated programs. Any panic, signal death, cap or budget hit is a violation; abnormal verdicts are reproduced alone before they are reported. Dictionary lines of length 0-1 (directives 2; thorough all of length 2) are repeated inside a called macro body, a taken, a skipped and an .else branch; structured cases include multi-byte/zero-width/control characters next to every special character in every lexical position (also in macro bodies and as macro argument) and symbol cycles / doubling ladders through every function and operator kind.",
-   note="\"Promptly\" is restated as <= 5e7 hook steps for inputs <= 64 KiB and \"out of proportion\" as > 256 MiB live heap; a wall-clock backstop firing alone is inconclusive. One open known finding (exponential macro expansion), see KNOWN_FINDINGS.txt.",
+   note="\"Promptly\" is restated as <= 5e7 hook steps (lines, items and expression evaluation steps) for inputs <= 64 KiB and \"out of proportion\" as > 256 MiB live heap; a wall-clock backstop firing alone is inconclusive. One open known finding (exponential macro expansion), see KNOWN_FINDINGS.txt.",
    design="§6 C16"),
  "C18": dict(
    technique="black-box process monitor of the real CLI binary: exit status, output capture, directory snapshots with sentinels, independent HEX decoding against the in-process library result (thorough: release binary and strace syscall log)",
-   text="The avra-rs binary is rebuilt from the working tree and run in fresh scratch directories over 15 sources x 5 stems x 6 -o/-e/-v option sets and 5 output faults on either output: on a failing build the exit status must be non-zero, something must be printed and no file may be created, removed or altered (sentinels at the default output places); on success the flash/EEPROM HEX files must sit at the documented paths and decode to exactly the images build_file returns in process; unwritable outputs must be reported with a non-zero status. Thorough adds the release binary and an strace leg showing that failing builds open nothing for writing. Plus source names that are not valid UTF-8 and option sets that send both images to one path.",
-   note="Expected images from the library in process (same file); decoding with refmodel/ihex.rs. An empty flash image producing no file is accepted. HOME/XDG_CONFIG_HOME point into the scratch directory.",
+   text="The avra-rs binary is rebuilt from the working tree and run in fresh scratch directories over 20 sources x 6 source placements (relative, dotted, no extension, sub-directory, absolute, symbolic link to a file elsewhere) x 6 -o/-e/-v option sets and 5 output faults on either output: on a failing build the exit status must be non-zero, something must be printed and no file may be created, removed or altered (sentinels at the default output places); on success the flash/EEPROM HEX files must sit at the documented paths and decode to exactly the images build_file returns in process; unwritable outputs must be reported with a non-zero status. Thorough adds the release binary and an strace leg showing that failing builds open nothing for writing. Plus source names that are not valid UTF-8 and option sets that send both images to one path.",
+   note="Expected images from the library in process (same file); decoding with refmodel/ihex.rs. The flash file is demanded for every successful build, also for an empty image (end-of-file record alone); an empty EEPROM image is not written. HOME/XDG_CONFIG_HOME point into the scratch directory.",
    design="§6 C18"),
  "C17": dict(
    technique="history/schedule monitor with process-isolated reference results: sequential histories, barrier-released concurrent threads with injected yields, fresh processes (new hash keys), BUILD-hook invariant at every build start, DEVICES fingerprint, Miri data-race/UB interpreter on a concurrent workload",
